@@ -487,24 +487,16 @@ func c14LockRules(c *eng.Ctx, clause string, h *c14Handler, acc []c14Access, key
 		lockM, unlockM = "RLock", "RUnlock"
 	}
 	c.Clause("R9", clause)
-	var locks, deferUnlocks []ssa.Instruction
+	var locks []ssa.Instruction
 	for _, b := range f.Blocks {
 		for _, in := range b.Instrs {
-			ci, ok := in.(ssa.CallInstruction)
-			if !ok {
-				continue
-			}
-			if _, isDefer := in.(*ssa.Defer); isDefer {
-				if c14IsKeyLock(ci, unlockM, keys) {
-					deferUnlocks = append(deferUnlocks, in)
-				}
-				continue
-			}
-			if c14IsKeyLock(ci, lockM, keys) {
+			if ci, ok := in.(*ssa.Call); ok && c14KeyLockOp(ci, lockM, keys) {
 				locks = append(locks, in)
 			}
 		}
 	}
+	// the unlock is deferred: directly, through a bound method value, or inside a deferred closure on every path
+	deferUnlocks := c14Deferred(f, func(ci ssa.CallInstruction) bool { return c14KeyLockOp(ci, unlockM, keys) })
 	site := "locked{every storage access under LockForKey(b.locks, path)." + lockM + "}"
 	if len(locks) == 0 {
 		why := "its read-modify-write of the key metadata is not serialised against other writers of the same key"
@@ -515,13 +507,16 @@ func c14LockRules(c *eng.Ctx, clause string, h *c14Handler, acc []c14Access, key
 		return
 	}
 	acquire := func(ci ssa.CallInstruction) bool {
-		if mode == "read" {
-			return c14IsKeyLock(ci, "RLock", keys) || c14IsKeyLock(ci, "Lock", keys)
+		if _, isDefer := ci.(*ssa.Defer); isDefer {
+			return false
 		}
-		return c14IsKeyLock(ci, "Lock", keys)
+		if mode == "read" {
+			return c14KeyLockOp(ci, "RLock", keys) || c14KeyLockOp(ci, "Lock", keys)
+		}
+		return c14KeyLockOp(ci, "Lock", keys)
 	}
 	release := func(ci ssa.CallInstruction) bool {
-		return c14IsKeyLock(ci, "Unlock", keys) || c14IsKeyLock(ci, "RUnlock", keys)
+		return c14KeyLockOp(ci, "Unlock", keys) || c14KeyLockOp(ci, "RUnlock", keys)
 	}
 	held := eng.MustHold(f, acquire, release)
 	var must []ssa.CallInstruction
@@ -683,12 +678,8 @@ func c14TxnRules(c *eng.Ctx, h *c14Handler, acc []c14Access) {
 		if !okSetup {
 			break
 		}
-		var rb []ssa.Instruction
-		for _, d := range eng.Calls(f, `^<logical\.Transaction>\.Rollback$`) {
-			if _, isDefer := d.(*ssa.Defer); isDefer && d.Common().Value == eng.ResultValue(bg, 0) {
-				rb = append(rb, d)
-			}
-		}
+		txnVal := eng.ResultValue(bg, 0)
+		rb := c14Deferred(f, func(ci ssa.CallInstruction) bool { return c14IsRollbackOf(ci, txnVal) })
 		okE := eng.CallOKEdges(bg)
 		if len(okE) == 0 {
 			okSetup = false
@@ -1014,7 +1005,7 @@ func c14WriteRules(c *eng.Ctx, fname string, patch bool) {
 		pGvk   = `^kv\.\(\*versionedKVBackend\)\.getVersionKey$`
 	)
 	vcas, put, addv := eng.Calls(f, pVcas), eng.Calls(f, pPut), eng.Calls(f, pAddV)
-	wkm, clean, gkm := eng.Calls(f, pWkm), eng.Calls(f, pClean), eng.Calls(f, pGkm)
+	clean, gkm := eng.Calls(f, pClean), eng.Calls(f, pGkm)
 	// the version Put may have been extracted (with the marshalling) into a helper of the
 	// package: follow the unique callee that puts Marshal(<parameter>) under <parameter key>
 	// into <parameter storage> and reports success only behind that Put
@@ -1032,17 +1023,7 @@ func c14WriteRules(c *eng.Ctx, fname string, patch bool) {
 		gPut.Pass = append(gPut.Pass, p)
 	}
 	// the metadata write may stand behind a forwarding closure that is called directly
-	wkMeta := map[ssa.CallInstruction]ssa.Value{}
-	for _, w := range wkm {
-		wkMeta[w] = w.Common().Args[3]
-	}
-	reWkm := regexp.MustCompile(pWkm)
-	for _, fw := range c14Forwards(f) {
-		if reWkm.MatchString(eng.CalleeName(fw.inner.Common())) && len(fw.args) == 4 && fw.args[3] != nil {
-			wkm = append(wkm, fw.site)
-			wkMeta[fw.site] = fw.args[3]
-		}
-	}
+	wkm, wkMeta := c14MetaWrites(f)
 	gWkm := eng.Guard{Desc: "success edge of " + pWkm}
 	for _, w := range wkm {
 		gWkm.Edges = append(gWkm.Edges, eng.CallOKEdges(w)...)
@@ -1638,7 +1619,7 @@ func c14VersionNumberOrigin(v ssa.Value, meta ssa.Value) string {
 		}
 		break
 	}
-	if ld, base := c14LoadOfField(v, "CurrentVersion"); ld != nil && base == meta {
+	if ld, base := c14LoadOfField(v, "CurrentVersion"); ld != nil && c14Same(base, meta) {
 		return "current"
 	}
 	if u, ok := v.(*ssa.UnOp); ok && u.Op == token.MUL {
@@ -1655,7 +1636,7 @@ func c14VersionNumberOrigin(v ssa.Value, meta ssa.Value) string {
 	if e, ok := v.(*ssa.Extract); ok && e.Index == 1 {
 		if nx, ok := e.Tuple.(*ssa.Next); ok {
 			if rg, ok := nx.Iter.(*ssa.Range); ok {
-				if ld, base := c14LoadOfField(rg.X, "Versions"); ld != nil && base == meta {
+				if ld, base := c14LoadOfField(rg.X, "Versions"); ld != nil && c14Same(base, meta) {
 					return "all"
 				}
 			}
@@ -1672,7 +1653,7 @@ func c14ScopedRules(c *eng.Ctx, fname string, field string, want string, whatFor
 		return
 	}
 	gkm := eng.Calls(f, `^kv\.\(\*versionedKVBackend\)\.getKeyMetadata$`)
-	wkm := eng.Calls(f, `^kv\.\(\*versionedKVBackend\)\.writeKeyMetadata$`)
+	wkm, wkMeta := c14MetaWrites(f)
 	c.Clause("R5", "C14.4")
 	if !c.Floor(f, "getKeyMetadata", len(gkm), 1) || !c.Floor(f, "writeKeyMetadata", len(wkm), 1) {
 		return
@@ -1696,7 +1677,7 @@ func c14ScopedRules(c *eng.Ctx, fname string, field string, want string, whatFor
 			continue
 		}
 		ld, base := c14LoadOfField(lk.X, "Versions")
-		if ld == nil || base != M {
+		if ld == nil || !c14Same(base, M) {
 			bad++
 			c.Violation(f, site, st.Pos(), whatFor+" modifies a Versions map that does not belong to the metadata read under the lock: "+eng.ExprDeep(lk.X), nil)
 			continue
@@ -1710,8 +1691,8 @@ func c14ScopedRules(c *eng.Ctx, fname string, field string, want string, whatFor
 		c.OK(f, site, stores[0].Pos(), fmt.Sprintf("%d store(s), each on meta.Versions[n] with n from the %s version number(s)", len(stores), want))
 	}
 	for _, w := range wkm {
-		if w.Common().Args[3] != M {
-			c.Violation(f, "prov{metadata persisted = metadata read under the lock}", w.Pos(), "writeKeyMetadata persists "+eng.Expr(w.Common().Args[3])+" instead of the record read under the lock", nil)
+		if !c14Same(wkMeta[w], M) {
+			c.Violation(f, "prov{metadata persisted = metadata read under the lock}", w.Pos(), "writeKeyMetadata persists "+eng.Expr(wkMeta[w])+" instead of the record read under the lock", nil)
 		} else {
 			c.OK(f, "prov{metadata persisted = metadata read under the lock}", w.Pos(), "writeKeyMetadata(getKeyMetadata()#0)")
 		}
@@ -1761,12 +1742,30 @@ func c14MetadataDeleteRules(c *eng.Ctx) {
 	}
 	gkm := eng.Calls(f, `^kv\.\(\*versionedKVBackend\)\.getKeyMetadata$`)
 	dels := eng.Calls(f, `^<logical\.Storage>\.Delete$`)
-	if !c.Floor(f, "getKeyMetadata", len(gkm), 1) || !c.Floor(f, "storage Delete", len(dels), 2) {
+	// the deletion of the version data may have been extracted into a helper of the package
+	var followed []c14VerDel
+	if st := c14Iface(c, "logical.Storage"); st != nil {
+		followed = c14FollowedVersionDeletes(f, st)
+	}
+	if !c.Floor(f, "getKeyMetadata", len(gkm), 1) || !c.Floor(f, "storage Delete", len(dels)+len(followed), 2) {
 		return
 	}
 	M := eng.ResultValue(gkm[0], 0)
 	c.Clause("R5", "C14.4")
 	var verDel, metaDel []ssa.Instruction
+	keys := c14PathKeys(f)
+	for _, fd := range followed {
+		verDel = append(verDel, fd.site)
+		site := "prov{version data deleted = versions listed in the key's own metadata}"
+		switch {
+		case !c14Same(fd.meta, M):
+			c.Violation(f, site, fd.site.Pos(), "the helper deletes the versions listed in "+eng.ExprDeep(fd.meta)+", not in the metadata read under the lock", nil)
+		case !keys[fd.key] && !keys[c14Resolve(fd.key)]:
+			c.Violation(f, site, fd.site.Pos(), "the helper deletes version data of key "+eng.ExprDeep(fd.key)+", not of the locked path", nil)
+		default:
+			c.OK(f, site, fd.site.Pos(), eng.CalleeName(fd.site.Common())+" iterates meta.Versions of the metadata read under the lock, for the locked key")
+		}
+	}
 	for _, d := range dels {
 		a := d.Common().Args
 		if g := c14ExtractOf(a[len(a)-1], 0); g != nil && strings.HasSuffix(eng.CalleeName(&g.Call), ").getVersionKey") {
@@ -1888,7 +1887,7 @@ func c14ReadRules(c *eng.Ctx, fname string, st *types.Interface) {
 		for _, b := range f.Blocks {
 			for _, in := range b.Instrs {
 				if lk, ok := in.(*ssa.Lookup); ok && lk.Index == n {
-					if ld, base := c14LoadOfField(lk.X, "Versions"); ld != nil && base == M {
+					if ld, base := c14LoadOfField(lk.X, "Versions"); ld != nil && c14Same(base, M) {
 						same = true
 					}
 				}
@@ -1905,7 +1904,7 @@ func c14ReadRules(c *eng.Ctx, fname string, st *types.Interface) {
 				}
 				return
 			}
-			if ld, base := c14LoadOfField(v, "CurrentVersion"); ld != nil && base == M {
+			if ld, base := c14LoadOfField(v, "CurrentVersion"); ld != nil && c14Same(base, M) {
 				leaves = append(leaves, "meta.CurrentVersion")
 				return
 			}
@@ -2285,7 +2284,7 @@ func c14MetadataCasRules(c *eng.Ctx, fname string) {
 		return
 	}
 	gkm := eng.Calls(f, `^kv\.\(\*versionedKVBackend\)\.getKeyMetadata$`)
-	wkm := eng.Calls(f, `^kv\.\(\*versionedKVBackend\)\.writeKeyMetadata$`)
+	wkm, _ := c14MetaWrites(f)
 	cfg := eng.Calls(f, `^kv\.\(\*versionedKVBackend\)\.config$`)
 	var casGet ssa.CallInstruction
 	for _, g := range eng.Calls(f, `^framework\.\(\*FieldData\)\.GetOk$`) {
@@ -2350,7 +2349,7 @@ func c14MetadataCasRules(c *eng.Ctx, fname string) {
 		if nc.Pol {
 			eqEdge.Succ = 0
 		}
-		if ld, base := c14LoadOfField(y, "CurrentMetadataVersion"); ld != nil && base == M {
+		if ld, base := c14LoadOfField(y, "CurrentMetadataVersion"); ld != nil && c14Same(base, M) {
 			eqCur = append(eqCur, eqEdge)
 		} else if k, ok := y.(*ssa.Const); ok && k.Value != nil && k.Value.Kind() == constant.Int && constant.Sign(k.Value) == 0 {
 			eqZero = append(eqZero, eqEdge)
